@@ -206,6 +206,9 @@ def run_case(case, acc):
         p.threads = [Thread(th["tid"], _b(th["comm"]), th["utime"], th["stime"], case["state"]) for th in case["threads"]]
         # main thread carries the process-wide comm in task/<pid>/stat
         p.threads[0].comm = comm
+    if harness.chash(case)[-1] in "01":
+        t.fake_getpid = case["pid"]        # one case in eight: the process inspects itself (os.getpid() answers its pid)
+        acc.count("cases_where_the_process_inspects_itself")
     vk = vkernel.VK()
     vk.table = t
     vk.mount("/vproc", t)
